@@ -5,7 +5,8 @@
 cd "$(dirname "$0")/.."
 P=$1; shift
 out=.work/soak-$(date +%s).log
-for s in "$@"; do for id in C01 C02 C03 C04 C05 C06 C07 C08 C09 C10 C11 C12 C13 C14 C15 C16 C17 C18 C19 C20; do echo "$id $s"; done; done |
-  xargs -P "$P" -L 1 bash -c 'o=$(VERIF_SEED=$1 VERIF_TAG=soak$1 ./check $0 quick 2>&1); rc=$?; echo "$0 seed=$1 rc=$rc $(echo "$o" | tail -1 | cut -c1-220)"; [ $rc -ne 0 ] && echo "$o" | grep -E "^(VIOLATION|CHECK-BROKEN)" | head -5 | cut -c1-400' | tee "$out"
+IDS=${SOAK_IDS:-C01 C02 C03 C04 C05 C06 C07 C08 C09 C10 C11 C12 C13 C14 C15 C16 C17 C18 C19 C20}
+for s in "$@"; do for id in $IDS; do echo "$id $s"; done; done |
+  xargs -P "$P" -L 1 bash -c 'o=$(VERIF_SEED=$1 VERIF_TAG=soak$1 ./check $0 quick 2>&1); rc=$?; echo "$0 seed=$1 rc=$rc $(echo "$o" | tail -1 | cut -c1-220)"; [ $rc -ne 0 ] && { echo "$o" | grep -E "^(VIOLATION|CHECK-BROKEN)" | head -5 | cut -c1-400; mkdir -p .work/soakfail-$0-$1; cp .work/$0-soak$1/race.* .work/$0-soak$1/replay-*.json .work/$0-soak$1/log .work/soakfail-$0-$1/ 2>/dev/null; }; true' | tee "$out"
 echo "--- not OK:"; grep -v " rc=0 " "$out" | grep "rc=" || echo none
 rm -rf .work/*-soak*
